@@ -298,6 +298,15 @@ impl Suite for Wire {
                     let e = gen_event(rng);
                     let tree = ev_tree(&e);
                     lines.push(format!("w enc ev {}", e.tok()));
+                    if rng.chance(1, 3) {
+                        let dup = |rng: &mut Rng| gen::entries(rng, 6, true, true);
+                        let ec = match rng.below(3) {
+                            0 => Ev::NewSpan { id: 1, parent: None, mt: 7, values: dup(rng) },
+                            1 => Ev::Recorded { id: 1, values: dup(rng) },
+                            _ => Ev::NewEvent { mt: 7, parent: None, values: dup(rng) },
+                        };
+                        lines.push(format!("w enc evc {}", ec.tok()));
+                    }
                     lines.push(format!("w dec ev 1 {}", json::canon_string(&tree)));
                     if rng.chance(1, 2) {
                         lines.push(format!("w dec ev 0 {}", json::canon_string(&permute(&tree, rng, false))));
@@ -361,6 +370,31 @@ impl Suite for Wire {
             }
             out.tags.push(format!("{}:{}", dir.unwrap_or("?"), what.unwrap_or("?")));
             match (dir, what) {
+                (Some("enc"), Some("evc")) => {
+                    // the event's value set is built through `FromIterator` (collect) from entries
+                    // that may repeat a name, the way a program assembles values by hand
+                    let e = Ev::parse(&mut t).expect("event");
+                    let collect = |values: &crate::proto::Entries| -> tracing_tunnel::TracedValues<String> { values.iter().map(|(k, v)| (k.clone(), v.to_real())).collect() };
+                    let real = match &e {
+                        Ev::NewSpan { id, parent, mt, values } => TracingEvent::NewSpan { id: *id, parent_id: *parent, metadata_id: *mt, values: collect(values) },
+                        Ev::Recorded { id, values } => TracingEvent::ValuesRecorded { id: *id, values: collect(values) },
+                        Ev::NewEvent { mt, parent, values } => TracingEvent::NewEvent { metadata_id: *mt, parent: *parent, values: collect(values) },
+                        other => other.to_real(),
+                    };
+                    let text = serde_json::to_string(&real).expect("serialize event");
+                    out.docs.push(format!("{{\"kind\":\"event\",\"doc\":{text}}}"));
+                    let tree = json::parse(&text).expect("event JSON parses");
+                    out.obs.push(format!("j {}", json::canon_string(&tree)));
+                    match serde_json::from_str::<TracingEvent>(&text) {
+                        Ok(back) => {
+                            let again = serde_json::to_string(&back).unwrap();
+                            if again != text {
+                                out.fails.push(format!("C11 event with collected values does not re-encode identically: {text} -> {again}"));
+                            }
+                        }
+                        Err(err) => out.fails.push(format!("C11 event does not decode from its own encoding {text}: {err}")),
+                    }
+                }
                 (Some("enc"), Some("ev")) => {
                     let e = Ev::parse(&mut t).expect("event");
                     if let Ev::NewSpan { values, .. } | Ev::Recorded { values, .. } | Ev::NewEvent { values, .. } = &e {
